@@ -741,14 +741,14 @@ func raceKey(s string) string {
 	return "unknown"
 }
 
-func schedulePhase(r *vk.Run, raceBin string, remaining time.Duration) map[string]any {
+func schedulePhase(r *vk.Run, raceBin string, workerBudget time.Duration) map[string]any {
 	bound := 2
 	nw := 8
 	if r.Thorough() {
 		bound = 3
 		nw = runtime.GOMAXPROCS(0)
 	}
-	budget := int(remaining.Seconds() * 0.7)
+	budget := int(workerBudget.Seconds())
 	if budget < 10 {
 		budget = 10
 	}
